@@ -254,6 +254,16 @@ fn run_api(ops: &[String]) -> Vec<String> {
                 }
                 format!("l{}", hex_encode(&t))
             }
+            "assoc" => match tulisp::lists::assoc(&mut ctx, &g(&regs, f[1]), &g(&regs, f[2]), None) { Ok(o) => { regs.insert(f[3].parse().unwrap(), o); "u".to_string() } Err(_) => "e".to_string() },
+            "alistget" => {
+                let dflt = if f[3] == "0" { None } else { Some(g(&regs, f[3])) };
+                match tulisp::lists::alist_get(&mut ctx, &g(&regs, f[1]), &g(&regs, f[2]), dflt, None, None) { Ok(o) => { regs.insert(f[4].parse().unwrap(), o); "u".to_string() } Err(_) => "e".to_string() }
+            }
+            "plistget" => match tulisp::lists::plist_get(&g(&regs, f[1]), &g(&regs, f[2])) { Ok(o) => { regs.insert(f[3].parse().unwrap(), o); "u".to_string() } Err(_) => "e".to_string() },
+            "len" => match tulisp::lists::length(&g(&regs, f[1])) { Ok(v) => format!("i{}", v), Err(_) => "e".to_string() },
+            "nth" => match tulisp::lists::nth(f[1].parse().unwrap(), g(&regs, f[2])) { Ok(o) => { regs.insert(f[3].parse().unwrap(), o); "u".to_string() } Err(_) => "e".to_string() },
+            "nthcdr" => match tulisp::lists::nthcdr(f[1].parse().unwrap(), g(&regs, f[2])) { Ok(o) => { regs.insert(f[3].parse().unwrap(), o); "u".to_string() } Err(_) => "e".to_string() },
+            "last" => match tulisp::lists::last(&g(&regs, f[1]), None) { Ok(o) => { regs.insert(f[2].parse().unwrap(), o); "u".to_string() } Err(_) => "e".to_string() },
             "list3" => {
                 let (a, b, c) = (g(&regs, f[1]), g(&regs, f[2]), g(&regs, f[3]));
                 match list!(,a ,@b ,c) { Ok(o) => { regs.insert(f[4].parse().unwrap(), o); "u".to_string() } Err(_) => "e".to_string() }
